@@ -65,6 +65,15 @@ ValueFamilies == <<
   [name |-> "polygamma.huge",  n |-> Len(PolyHugeList)],
   [name |-> "polygamma.highrec", n |-> Len(PolyHighNs) * Len(PolyHighXs)],
   [name |-> "zeta.refl",       n |-> Len(ZetaReflS)],
+  [name |-> "gammaq.bigx",     n |-> Len(QBigXAs) * Len(QBigXXs)],
+  [name |-> "gammaupper.bigx", n |-> Len(QBigXAs) * Len(QBigXXs)],
+  [name |-> "gammaq.bigxhalf", n |-> Len(QBigXHalfMs) * Len(QBigXXs)],
+  [name |-> "gammaupper.smalla", n |-> Len(SmallAEs) * Len(SmallXEs)],
+  [name |-> "gammaq.smalla",   n |-> Len(SmallAEs) * Len(SmallXEs)],
+  [name |-> "besseli.tinyx",   n |-> Len(TinyBesV2s) * Len(TinyBesXEs)],
+  [name |-> "logbesseli.tinyx", n |-> Len(TinyBesV2s) * Len(TinyBesXEs)],
+  [name |-> "besseli.negx",    n |-> Len(NegXNs) * Len(NegXXs)],
+  [name |-> "polygamma.halfhigh", n |-> Len(HalfHighNs)],
   [name |-> "class",           n |-> Len(ClassList)]
 >>
 
@@ -117,6 +126,15 @@ ValueCase(name, k) ==
     [] name = "polygamma.huge"  -> PolygammaHuge(k)
     [] name = "polygamma.highrec" -> PolygammaHighRec(PolyHighNs[((k - 1) \div Len(PolyHighXs)) + 1], PolyHighXs[((k - 1) % Len(PolyHighXs)) + 1])
     [] name = "zeta.refl"       -> ZetaRefl(ZetaReflS[k])
+    [] name = "gammaq.bigx"     -> GammaQBigX(QBigXAs[((k - 1) \div Len(QBigXXs)) + 1], QBigXXs[((k - 1) % Len(QBigXXs)) + 1])
+    [] name = "gammaupper.bigx" -> GammaUpperBigX(QBigXAs[((k - 1) \div Len(QBigXXs)) + 1], QBigXXs[((k - 1) % Len(QBigXXs)) + 1])
+    [] name = "gammaq.bigxhalf" -> GammaQBigXHalf(QBigXHalfMs[((k - 1) \div Len(QBigXXs)) + 1], QBigXXs[((k - 1) % Len(QBigXXs)) + 1])
+    [] name = "gammaupper.smalla" -> GammaUpperSmall(SmallAEs[((k - 1) \div Len(SmallXEs)) + 1], SmallXEs[((k - 1) % Len(SmallXEs)) + 1])
+    [] name = "gammaq.smalla"   -> GammaQSmall(SmallAEs[((k - 1) \div Len(SmallXEs)) + 1], SmallXEs[((k - 1) % Len(SmallXEs)) + 1])
+    [] name = "besseli.tinyx"   -> BesselTinyX(TinyBesV2s[((k - 1) \div Len(TinyBesXEs)) + 1], TinyBesXEs[((k - 1) % Len(TinyBesXEs)) + 1])
+    [] name = "logbesseli.tinyx" -> LogBesselTinyX(TinyBesV2s[((k - 1) \div Len(TinyBesXEs)) + 1], TinyBesXEs[((k - 1) % Len(TinyBesXEs)) + 1])
+    [] name = "besseli.negx"    -> BesselNegX(NegXNs[((k - 1) \div Len(NegXXs)) + 1], NegXXs[((k - 1) % Len(NegXXs)) + 1])
+    [] name = "polygamma.halfhigh" -> PolygammaHalfHigh(HalfHighNs[k])
     [] name = "class"           -> ClassCase(k)
     [] name = "mgamma.closed"   -> LET kk == MlgKs[((k - 1) \div 7) + 1] IN MgammaClosed(MlgX2(kk)[((k - 1) % 7) + 1], kk)
 
